@@ -43,8 +43,8 @@ class Ctx:
         self.tier = tier
         self.seed = seed
         self.repo_root = repo_root
-        self.repo = Repo(repo_root)
         self.t0 = time.time()
+        self.repo = Repo(repo_root)
         self.obligations = []  # (rule, instance, ok, detail)
         self.findings: list[Finding] = []
         self.notes: list[str] = []
